@@ -1658,6 +1658,13 @@ def run(ctx):
     run_r14(ctx, r14)
     r13 = ctx.rule("C03-R13", "binary and gates: writer and reader chain the two deltas the same way and step the running code by 2", floor=5)
     run_r13(ctx, r13)
+    # R18: every decimal number a writer emits (itoap: canonical decimal text of any length up to the type's maximum) is
+    # passed over in full by the scanners, wherever the token starts its look-ahead (`{group}` starts at offset 1): the
+    # fast paths hand over to the byte-wise continuation at the caller's offset + 8, and scanning is +1 per digit (C13-R3/R4)
+    from . import c13
+    r18 = ctx.rule("C03-R18", "numbers of every length the writers emit are scanned in full at any look-ahead offset: digit class, +1 per digit, fast paths continue at offset + 8 (shared with C13-R3/R4)", floor=60)
+    c13.run_r3(ctx, r18)
+    c13.run_r4(ctx, r18)
     from .c06 import run_r6 as c06_r6
     r13b = ctx.rule("C03-R13b", "the reader accepts every delta the writer can emit: a delta equal to its reference code (the constant 0 as a gate input) is not rejected (shared with C06-R6)", floor=1)
     c06_r6(ctx, r13b, inclusive_only=True)
